@@ -244,7 +244,9 @@ extern "C" void __sanitizer_set_death_callback(void (*)(void));
 #endif
 
 void sys_draws_flush() __attribute__((weak));      // defined in wrap_trng.cpp (absent from the extra drivers)
-static void h_reset(const Args &) { obj_reset_all(); g_regs.clear(); Ev("Reset").emit(); }
+void tape_reset_all() __attribute__((weak));      // wrap_trng.cpp
+// a case starts from nothing: no objects, no registers, no entropy tape and no unread log of earlier draws
+static void h_reset(const Args &) { obj_reset_all(); g_regs.clear(); if (tape_reset_all) tape_reset_all(); Ev("Reset").emit(); }
 
 static void run_line(const std::string &s, long lineno) {
     g_line = lineno;
